@@ -96,6 +96,14 @@ def mk_hist(fx, np, t, codes, shape=None, mode='inplace', **cfg):
         if common.codes_of(X) != clist:
             raise AssertionError('indexing changed the code')
         return X
+    if mode == 'intval-element' and scalar and f <= 0 and w < 63:
+        # an ELEMENT (integer index) of an array that was built BY VALUE from Python integers: the element's value is a NumPy integer scalar
+        vals = [c << (-f) for c in (other[0], clist[0], other[0])]
+        A = fx.Fxp(vals, bool(s), w, f, **cfg)
+        X = A[1] if (clist[0] + w) % 2 else A[-2]
+        if common.codes_of(X) != clist:
+            raise AssertionError('indexing changed the code')
+        return X
     if mode == 'intval' and f <= 0 and w < 63:
         vals = [c << (-f) for c in clist]
         X = fx.Fxp(vals[0] if scalar else (np.array(vals, dtype=np.int64).reshape(shape) if shape is not None else vals), bool(s), w, f, **cfg)
